@@ -372,6 +372,11 @@ def r6(run, ctx):
         fd.rule = 'R6'
         fd.key = fd.key.replace('R1|', 'R6|', 1)
         run.findings.append(fd)
+    run.share(ctx, c10.r2, 'R2', 'R10', 'the slot is held for as long as the operation runs '
+              '(shared with C10 R2): with gen.coroutine applied outside synchronized the wrapper '
+              'sees a plain generator, frees the slot before the body has run a line, and a '
+              'stop/start accepted meanwhile enters the reap loop for a worker the first '
+              'operation is still terminating - the loop thread spins (F-REAP-SPIN)')
 
 
 def r7(run, ctx):
